@@ -169,11 +169,75 @@ def e1_batch(ctx):
     bad = common.run_cases(ctx, "batch", HEADER, checks, chunk=45)
     ctx.traces_validated += len(checks) - len(bad)
     for i in bad[:1]:
+        d = _shrink_fold_case(ctx, cases[i], descr[i])
         ctx.add_failure("correspondence", "E1:batch-fold", "C17:batch:record_change-differs-from-model",
                         f"the sets after folding the items with the real Watcher.record_change are not the ones "
-                        f"model/NglobBatch.v fold_changes computes: {descr[i]!r}", witness={"case": descr[i]})
+                        f"model/NglobBatch.v fold_changes computes: {d!r}", witness={"case": d})
     if cases:
         ctx.sample({"batch_fold_case": descr[0]})
+
+
+def _py_fold(rel, under, items):
+    """model/NglobBatch.v fold_changes, transliterated (only used to shrink a failing case; the verdict on the
+    shrunk case is taken in Coq again)."""
+    deleted, updated = [], []
+    for db, kind, path in items:
+        if kind == "DELETED":
+            if path not in deleted and path in rel[db]:
+                deleted.append(path)
+                updated = [q for q in updated if q != path]
+        elif kind == "UPDATED":
+            if path not in updated and path in rel[db]:
+                deleted = [q for q in deleted if q != path]
+                updated.append(path)
+        else:
+            for q in under.get((db, path), []):
+                if q not in deleted:
+                    deleted.append(q)
+                    updated = [x for x in updated if x != q]
+    return sorted(deleted), sorted(updated)
+
+
+def _describe_fold_case(rel, under, items, deleted, updated):
+    return {"relevant_during_build": sorted(rel[True]), "relevant": sorted(rel[False]),
+            "under": [[b, d, l] for (b, d), l in sorted(under.items())],
+            "items": [list(i) for i in items], "deleted": deleted, "updated": updated}
+
+
+def _shrink_fold_case(ctx, case, described):
+    """Greedy removal of items (then of table entries) while the real fold still differs from the transliterated
+    model; the result is confirmed by the Coq model, otherwise the original case is reported."""
+    rel, under, items = case
+
+    def real(items):
+        async def run():
+            w = _make_watcher(_StubWorkflow(rel, under))
+            await _fold_real(w, items)
+            return sorted(map(str, w.deleted)), sorted(map(str, w.updated))
+        return asyncio.run(run())
+
+    def differs(items):
+        return real(items) != _py_fold(rel, under, items)
+
+    if not differs(items):
+        return described
+    items = list(items)
+    changed = True
+    while changed:
+        changed = False
+        for k in range(len(items)):
+            cand = items[:k] + items[k + 1:]
+            if cand and differs(cand):
+                items, changed = cand, True
+                break
+    deleted, updated = real(items)
+    used_dirs = {(b, p) for b, k, p in items if k == "DELETED_PARENT"}
+    under_small = {k: v for k, v in under.items() if k in used_dirs}
+    chk = (f"chk_batch {coq_lstr(sorted(rel[True]))} {coq_lstr(sorted(rel[False]))} {_coq_under(under_small)} "
+           f"{_coq_items(items)} {coq_lstr(deleted)} {coq_lstr(updated)}")
+    if common.run_cases(ctx, "batchshrink", HEADER, [chk], chunk=1):
+        return _describe_fold_case(rel, under_small, items, deleted, updated)
+    return described
 
 
 # ---------------------------------------------------------------------------------------------
